@@ -471,4 +471,4 @@ def _judge(out: Outcome, path: str, ok: bool, why: str, n_inv: int, raises: str 
 
 
 def main(chk: Check) -> None:
-    chk.explore("perturb", cases(), run_case, quick=2000, thorough=40000)
+    chk.explore("perturb", cases(), run_case, quick=4000, thorough=40000)
